@@ -46,7 +46,12 @@ def gallery(ctx, cuqi, ncases):
     REF = np.array([0.5, -0.25])
 
     def reassign(d, name):
-        """assign other values to the attributes the methods read at call time (non-zero means/locations)"""
+        """assign other values to the attributes the methods read at call time (non-zero means/locations); only attributes
+        the object already HAS are assigned (after a rename the mode is skipped instead of testing a dead attribute)"""
+        need = {"CalSom91": ("sig", "delta"), "funnel": ("m0", "m1", "s1"), "donut": ("radius", "sigma2"), "mixture": ("G0", "G1", "G2"),
+                "squiggle": ("G0",), "banana": ("G0", "a", "b")}.get(name, ())
+        if not all(hasattr(d, a) for a in need):
+            return False
         if name == "CalSom91":
             d.sig = _dy(rng, 0.25, 2); d.delta = _dy(rng, 0.5, 3)
         elif name == "funnel":
@@ -494,7 +499,7 @@ def observer_histories(ctx, cuqi, reps):
                                                  ("likelihood.model", lambda lik=lik: lik.model), ("geometry", lambda obj=obj: obj.geometry)]
                     # Lean: Gᵀ Jᵀ P (d - F(par2fun x)) (+ prior part, added here in exact dyadic arithmetic by the `sum` op)
                     fx = x if Gm is None else Gm @ x
-                    Fv = mod._forward_func(fx)
+                    Fv = A @ fx if kind == "linear" else A @ fx + Bq @ (fx * fx)
                     ln = f"lik {qv(data - Fv)} {qm(Jx(fx))} {qm(np.eye(m) / s2)} {'_' if Gm is None else qm(Gm)}"
                     name = f"{kind}:{a1}:{a2}:{a3}"
                 elif kind == "gaussian":
@@ -548,12 +553,15 @@ def observer_histories(ctx, cuqi, reps):
             continue
         done = []
         for oname, call in obs:
+            _rs = np.random.get_state()
             try:
                 with quiet():
                     call()
                 done.append(oname)
             except Exception:  # noqa
                 done.append(oname + "(raised)")
+            finally:
+                np.random.set_state(_rs)
             st, exc, g = b.classify(lambda: obj.gradient(x.copy()), dim)
             if st != "value" or not b.cmp_vec(g0.tolist(), g.tolist(), 1e-10):
                 key = f"{key0}:after:{oname}"
